@@ -305,6 +305,21 @@ def r3(ctx):
            "OutputArgs fields are read, in producer-reachable code, only by needs_interactive" if not extra else
            "producer-reachable code reads OutputArgs fields directly in %s: what is scanned/reported then depends on the output mode, so the edits written by -U "
            "are no longer the ones the same command announces under --json" % extra, where=prog.fns[extra[0]].loc() if extra else (ni.loc() if ni else None))
+    # inside CombinedScan::scan the separate_fix flag (set by -U/-i, clear for --json) may only decide WHERE a match is stored: every
+    # rule of the node's kind is still evaluated (matching, suppression bookkeeping) — the C01-R6 scan-loop obligations
+    from . import c01
+    from ..core import Ctx
+    sub = Ctx("C01", ctx.tier, prog)
+    c01.r6(sub)
+    n_scan = 0
+    for o in sub.obligations:
+        k = o["key"].split(":", 1)[1]
+        if "CombinedScan::scan" not in k:
+            continue
+        n_scan += 1
+        ctx.ob("R3", "scan evaluates alike in both modes/" + k, o["ok"], o["detail"] + ("" if o["ok"] else
+               " — in apply mode (separate_fix) rules are skipped that announce mode evaluates: their suppression comments count as unused and -U deletes them, edits never announced by --json"), where=o.get("where"))
+    ctx.floor("R3", "CombinedScan::scan loop obligations shared with C01 R6", n_scan, 5)
     # uses of needs_interactive in producers
     n_use = 0
     for fid in sorted(P):
